@@ -58,12 +58,17 @@ type c27Gate struct {
 	writes  int
 	crashAt int // close the gate at this row write (0 = never)
 	crashed bool
+	failN   int // transient ledger error: the next failN row writes abort, the process lives on
 }
 
 func (g *c27Gate) onWrite() int64 {
 	g.mu.Lock()
 	defer g.mu.Unlock()
 	if g.crashed {
+		return 0
+	}
+	if g.failN > 0 {
+		g.failN--
 		return 0
 	}
 	g.writes++
@@ -78,7 +83,13 @@ func (g *c27Gate) crash() { g.mu.Lock(); g.crashed = true; g.mu.Unlock() }
 
 func (g *c27Gate) isCrashed() bool { g.mu.Lock(); defer g.mu.Unlock(); return g.crashed }
 
-func (g *c27Gate) arm(k int) { g.mu.Lock(); g.writes, g.crashAt, g.crashed = 0, k, false; g.mu.Unlock() }
+func (g *c27Gate) arm(k int) {
+	g.mu.Lock()
+	g.writes, g.crashAt, g.crashed, g.failN = 0, k, false, 0
+	g.mu.Unlock()
+}
+
+func (g *c27Gate) failNext(n int) { g.mu.Lock(); g.failN = n; g.mu.Unlock() }
 
 var c27GateCur atomic.Pointer[c27Gate]
 
@@ -241,6 +252,7 @@ type c27Rig struct {
 	hubVanishCount map[string]int
 	everVanished   map[string]bool // spoke source removed by the harness (vanish or compaction)
 
+	passCancel  context.CancelFunc // ends the running pass's context (contact window closes / run timeout)
 	lastSeq     int64
 	allowDelete bool
 	counter     int
@@ -437,6 +449,23 @@ func (t *c27Transport) PutFile(ctx context.Context, hubID string, e *LedgerEntry
 	case "crashBefore":
 		t.rig.gate.crash()
 		return nil, errC27Dead
+	case "ctxEndBefore", "ctxEndAfter":
+		// the pass context ends while this transfer is outstanding (run timeout, client
+		// disconnect, contact window closing); the process and the Agent object live on
+		if f.Kind == "ctxEndAfter" {
+			_, _ = t.receive(ctx, e, body, offset)
+		}
+		t.rig.mu.Lock()
+		cancel := t.rig.passCancel
+		t.rig.mu.Unlock()
+		cancel()
+		return nil, ctx.Err()
+	case "ledgerErrAfter":
+		// the hub answers, then the spoke's next ledger writes fail transiently
+		// (SQLITE_BUSY past the timeout, disk full); no restart follows
+		res, err := t.receive(ctx, e, body, offset)
+		t.rig.gate.failNext(int(f.K%2) + 1)
+		return res, err
 	case "sweepBefore":
 		_, _ = t.rig.recv.SweepStaging(ctx, time.Second, time.Now().Add(time.Hour))
 		return t.receive(ctx, e, body, offset)
@@ -793,7 +822,8 @@ func (r *c27Rig) addFile(t *rapid.T) {
 }
 
 var c27PutKinds = []string{"dropBefore", "dropAfter", "dropAfter", "dropAfter", "short", "short", "shortLost", "corrupt", "corruptShort", "corruptShort",
-	"backpressure", "invalid", "hubFail", "hubFailMid", "crashAfter", "crashAfter", "crashBefore", "sweepBefore", "foreignBefore"}
+	"backpressure", "invalid", "hubFail", "hubFailMid", "crashAfter", "crashAfter", "crashBefore", "sweepBefore", "foreignBefore",
+	"ctxEndBefore", "ctxEndAfter", "ledgerErrAfter"}
 
 // run performs one Agent.Run under a drawn fault plan.
 func (r *c27Rig) run(t *rapid.T, faults bool) {
@@ -851,10 +881,15 @@ func (r *c27Rig) run(t *rapid.T, faults bool) {
 // exec performs one Agent.Run under whatever fault plan is installed in the transport.
 func (r *c27Rig) exec(plan []string, crashAt int, faults bool) {
 	r.gate.arm(crashAt)
-	res, err := r.agent.Run(context.Background())
+	ctx, cancel := context.WithCancel(context.Background())
+	r.mu.Lock()
+	r.passCancel = cancel
+	r.mu.Unlock()
+	res, err := r.agent.Run(ctx)
+	cancel()
 	crashed := r.gate.isCrashed()
 	r.gate.mu.Lock()
-	r.gate.crashAt = 0
+	r.gate.crashAt, r.gate.failN = 0, 0
 	r.gate.mu.Unlock()
 	verifkit.Class("run")
 	summary := "err=" + fmt.Sprint(err)
@@ -1080,6 +1115,95 @@ func (r *c27Rig) staleConfirm(t *rapid.T) {
 	r.run(t, false)
 }
 
+// freshTarget returns a file the hub knows nothing about and the ledger has not
+// started on (or adds one of at least minSize bytes).
+func (r *c27Rig) freshTarget(t *rapid.T, label string, minSize int) *c27File {
+	rows := r.ledgerRows()
+	hub, rc := r.hubFiles(), r.receipts()
+	f := r.pick(t, label, func(f *c27File) bool {
+		if !f.OnSpoke || f.Compacted || len(f.Content) < minSize {
+			return false
+		}
+		if _, isForeign := r.foreign[f.Path]; isForeign {
+			return false
+		}
+		if _, known := rc[f.Path]; known {
+			return false
+		}
+		if _, onHub := hub[NamespacedPath(c27SpokeID, f.Path)]; onHub {
+			return false
+		}
+		row, tracked := rows[f.Path]
+		return !tracked || (row.State == string(StatePending) && row.BytesSent == 0)
+	})
+	for tries := 0; f == nil && tries < 8; tries++ {
+		r.addFile(t)
+		if c := r.files[r.order[len(r.order)-1]]; len(c.Content) >= minSize {
+			f = c
+		}
+	}
+	return f
+}
+
+// requeueIfFailed is the operator's requeue (keeps bytes_sent) for a directed
+// sub-history whose file ran into the attempt cap half-way.
+func (r *c27Rig) requeueIfFailed(p string) {
+	if r.ledgerRows()[p].State == string(StateFailed) {
+		n, err := r.agent.RequeueFailed(context.Background(), p)
+		r.must(err, "requeue")
+		r.note("requeueFailed %s -> %d", p, n)
+	}
+}
+
+// resumeSplice: repeated short bodies on ONE file with the partial answer
+// alternately delivered and lost, so the hub's staged prefix runs AHEAD of the
+// spoke's checkpoint (offset < staged < size), then clean passes from the
+// spoke's older offset.
+func (r *c27Rig) resumeSplice(t *rapid.T) {
+	f := r.freshTarget(t, "spliceTarget", 6)
+	if f == nil {
+		return
+	}
+	size := int64(len(f.Content))
+	n1 := int64(rapid.IntRange(1, int(size)-3).Draw(t, "spliceN1"))
+	grow := int64(rapid.IntRange(1, int(size-n1)-1).Draw(t, "spliceGrow"))
+	verifkit.Class("directed:resume-splice")
+	r.note("directed resumeSplice on %s size=%d n1=%d n2=%d", f.Path, size, n1, n1+grow)
+	// cut() = K % remaining: remaining is size at offset 0, size-n1 on the resume
+	r.scripted(map[string]c27PutFault{f.Path: {Kind: "short", K: n1}}, nil, fmt.Sprintf("%s:short(%d) answer delivered", f.Path, n1))
+	r.requeueIfFailed(f.Path)
+	if row := r.ledgerRows()[f.Path]; row.State != string(StatePending) || row.BytesSent != n1 {
+		return
+	}
+	r.scripted(map[string]c27PutFault{f.Path: {Kind: "shortLost", K: grow}}, nil, fmt.Sprintf("%s:short(+%d) answer lost", f.Path, grow))
+	r.requeueIfFailed(f.Path)
+	for i := 0; i < 2; i++ {
+		r.run(t, false)
+		r.requeueIfFailed(f.Path)
+	}
+}
+
+// strandInFlight leaves a row in_flight WITHOUT a process restart: the pass
+// context ends mid-transfer (so the follow-up ledger write fails on the dead
+// context), or the ledger write after the hub's answer fails transiently. The
+// SAME Agent object then runs further passes.
+func (r *c27Rig) strandInFlight(t *rapid.T) {
+	f := r.freshTarget(t, "strandTarget", 1)
+	if f == nil {
+		return
+	}
+	kind := rapid.SampledFrom([]string{"ctxEndAfter", "ctxEndAfter", "ctxEndBefore", "ledgerErrAfter"}).Draw(t, "strandKind")
+	verifkit.Class("directed:strand-in-flight")
+	r.note("directed strandInFlight on %s via %s", f.Path, kind)
+	r.scripted(map[string]c27PutFault{f.Path: {Kind: kind}}, nil, f.Path+":"+kind)
+	if r.ledgerRows()[f.Path].State == string(StateInFlight) {
+		verifkit.Class("row-stranded-in-flight-without-restart")
+	}
+	if rapid.Bool().Draw(t, "strandFollowUpPass") {
+		r.run(t, false)
+	}
+}
+
 func (r *c27Rig) pruneSynced() {
 	_, err := r.spokeDB.Exec(`UPDATE sync_ledger SET synced_at = ? WHERE state = 'synced'`, time.Now().UTC().AddDate(0, 0, -30))
 	r.must(err, "age synced rows")
@@ -1101,7 +1225,7 @@ func c27History(t *rapid.T) {
 	steps := rapid.IntRange(4, verifkit.Scale(14, 20)).Draw(t, "steps")
 	for i := 0; i < steps; i++ {
 		act := rapid.SampledFrom([]string{"add", "add", "add", "run", "run", "run", "run", "run", "vanishSpoke", "compactSpoke", "compactSpoke",
-			"compactHub", "vanishHub", "sweepStaging", "foreign", "requeue", "dismiss", "restart", "prune", "staleConfirm", "staleConfirm"}).Draw(t, "action")
+			"compactHub", "vanishHub", "sweepStaging", "foreign", "requeue", "dismiss", "restart", "prune", "staleConfirm", "staleConfirm", "resumeSplice", "resumeSplice", "strandInFlight", "strandInFlight"}).Draw(t, "action")
 		switch act {
 		case "add":
 			for j, n := 0, rapid.IntRange(1, 3).Draw(t, "nFiles"); j < n; j++ {
@@ -1143,6 +1267,10 @@ func c27History(t *rapid.T) {
 			r.pruneSynced()
 		case "staleConfirm":
 			r.staleConfirm(t)
+		case "resumeSplice":
+			r.resumeSplice(t)
+		case "strandInFlight":
+			r.strandInFlight(t)
 		}
 		r.check("after " + act)
 	}
